@@ -307,5 +307,27 @@ func unmarshal(data []byte, v any) error {
 		return errors.Wrap(err, "unmarshal json")
 	}
 
+	// The json decoders of ssz types accept null for nested objects and list elements,
+	// which later panics when hashing, cloning or marshalling the value.
+	// So ensure json decoded ssz values are structurally complete by marshalling them.
+	if marshaller, ok := v.(ssz.Marshaler); ok {
+		if err := safeMarshalSSZ(marshaller); err != nil {
+			return errors.Wrap(err, "unmarshal json: incomplete value")
+		}
+	}
+
 	return nil
+}
+
+// safeMarshalSSZ returns an error if the value cannot be ssz marshalled, including if marshalling panics.
+func safeMarshalSSZ(marshaller ssz.Marshaler) (err error) {
+	defer func() {
+		if r := recover(); r != nil {
+			err = errors.New("panic marshalling ssz", z.Any("panic", r))
+		}
+	}()
+
+	_, err = marshaller.MarshalSSZ()
+
+	return err
 }
